@@ -20,6 +20,7 @@ from lib import vk
 PKG = "cmd/zoekt-webserver/grpc/server"
 FILES = ["c25_stream_test.go"]
 UNITS = 4
+BUDGET = 1 << 20
 
 
 def _consts(ctx, emit, max_events, max_files):
@@ -42,12 +43,13 @@ def _files_kind(exp, is_flush):
     return "lost"
 
 
-def _stats_sigs(prefix, exp, ncounters):
-    fields = sorted(exp.get("fields", []))
+def _stats_sigs(prefix, exp, generic):
+    """one signature per affected counter, or the bare prefix when the defect is not specific to
+    a few fields (more than 3 counters affected over the whole run)."""
+    if generic:
+        return [prefix]
     dropped = set(exp.get("dropped", []))
-    if len(fields) > 3 or len(fields) >= ncounters:
-        return ["%s" % prefix]
-    return ["%s:%s%s" % (prefix, f, ":dropped" if f in dropped else "") for f in fields]
+    return ["%s:%s%s" % (prefix, f, ":dropped" if f in dropped else "") for f in sorted(exp.get("fields", []))]
 
 
 def _scenarios(events):
@@ -61,20 +63,32 @@ def _scenarios(events):
     return res
 
 
-def _nontrivial(sc_events):
-    """sampler had to flush/merge an aggregate, or a result was split into several messages."""
+def _nontrivial(sc_events, names):
+    """judged on the producer side only (inputs), so that it does not depend on what the code
+    under test delivered: a result that has to be split (>= 2 files reaching the budget), the
+    100th stats-only event with counters to forward, a file event following stats-only events
+    with counters (merge), trailing stats-only events with counters (final flush)."""
+    cidx = [i for i, n in enumerate(names) if n not in ("Duration", "FlushReason")]
     split = sample = merge = final = False
+    pending = False   # stats-only counters not yet followed by a file event
+    nstats = 0
     for e in sc_events:
-        if e["ev"] == "send":
-            if e["files"]:
-                if len(e["msgs"]) >= 2:
-                    split = True
-                if e["msgs"] and e["msgs"][0]["stats"] != e["stats"]:
-                    merge = True
-            elif e["msgs"]:
+        if e["ev"] != "send":
+            continue
+        nz = any(e["stats"][i] > 0 for i in cidx)
+        if e["files"]:
+            if len(e["files"]) >= 2 and sum(f[1] for f in e["files"]) >= BUDGET:
+                split = True
+            if pending:
+                merge = True
+            pending = False
+        else:
+            nstats += 1
+            pending = pending or nz
+            if nstats % 100 == 0 and pending:
                 sample = True
-        elif e["ev"] == "flush" and e["msgs"]:
-            final = True
+                pending = False
+    final = pending
     return split, sample, merge, final
 
 
@@ -91,7 +105,7 @@ def run(ctx):
     if len(scripts) < 500:
         raise vk.Inconclusive("too few scripts generated: %d" % len(scripts))
     total_scripts = len(scripts)
-    cap = ctx.pick(2500, 30000)
+    cap = ctx.pick(1500, 30000)
     if len(scripts) > cap:
         rnd = random.Random(ctx.seed)
         scripts = rnd.sample(scripts, cap)
@@ -107,6 +121,8 @@ def run(ctx):
     nontrivial = 0
     cover = {"split": 0, "sample_flush": 0, "merge": 0, "final_flush": 0, "long_stats_runs": 0}
     conform = []
+    rejected = []   # (why, history length, detail)
+    vacuous = []
     names = None
     for name, run_, env in (("replay", "^TestVerif_C25_Replay$", {"VERIF_IN": inp, "VERIF_C25_UNITS": UNITS}),
                             ("random", "^TestVerif_C25_Random$", {}),
@@ -133,41 +149,29 @@ def run(ctx):
         for r in rej:
             ev = events[r["line"] - 1]
             a, b = by_sc[r["sc"]]
-            why = r["why"]
             exp = r.get("expected", {})
-            if why == "conform":
+            if r["why"] == "conform":
                 conform.append({"driver": name, "sc": r["sc"], "line": r["line"], "expected": exp,
                                 "observed": ev.get("msgs")})
                 continue
-            if why == "files":
-                sigs = ["C25:files:" + _files_kind(exp, ev["ev"] == "flush")]
-            elif why == "stats-lost":
-                sigs = _stats_sigs("C25:stats:lost", exp, len(counters))
-            elif why == "stats-dup":
-                sigs = _stats_sigs("C25:stats:dup", exp, len(counters))
-            elif why == "e2e-stats":
-                sigs = ["C25:e2e:stats:" + f for f in sorted(exp.get("fields", []))]
-            elif why == "e2e-files":
-                sigs = ["C25:e2e:files"]
-            else:
-                sigs = ["C25:" + why]
             bad.add(r["sc"])
             # the producer history of the scenario up to the rejected event (sizes, not contents)
             hist = [{"files": x["files"], "stats": dict((n, v) for n, v in zip(names, x["stats"]) if v)}
                     for x in events[a + 1:r["line"]] if x["ev"] == "send"]
+            nhist = len(hist)
             if len(hist) > 12:
                 hist = [{"omitted_events": len(hist) - 12}] + hist[-12:]
-            for sig in sigs:
-                ctx.violation(sig, {"driver": name, "scenario": r["sc"], "line": r["line"], "why": why,
-                                    "event": ev["ev"], "expected": exp,
-                                    "observed_msgs": [{"files": m["files"][:20], "hs": m["hs"], "size": m["size"],
-                                                       "stats": dict((n, v) for n, v in zip(names, m["stats"]) if v)}
-                                                      for m in ev.get("msgs", [])[:8]],
-                                    "history": hist})
+            rejected.append((r["why"], nhist, {
+                "driver": name, "scenario": r["sc"], "line": r["line"], "why": r["why"],
+                "event": ev["ev"], "expected": exp,
+                "observed_msgs": [{"files": m["files"][:20], "hs": m["hs"], "size": m["size"],
+                                   "stats": dict((n, v) for n, v in zip(names, m["stats"]) if v)}
+                                  for m in ev.get("msgs", [])[:8]],
+                "producer_events": nhist, "history": hist}))
         confsc = {c["sc"] for c in conform if c["driver"] == name}
         ctx.traces_validated += len(scs) - len(bad | confsc)
         for a, b in scs:
-            split, sample, merge, final = _nontrivial(events[a:b])
+            split, sample, merge, final = _nontrivial(events[a:b], names)
             cover["split"] += split
             cover["sample_flush"] += sample
             cover["merge"] += merge
@@ -182,6 +186,11 @@ def run(ctx):
                 elif x["ev"] == "send":
                     run_len = 0
             cover["long_stats_runs"] += best > 100
+        if name == "e2e":
+            mine = [_nontrivial(events[a:b], names) for a, b in scs]
+            for k, what in enumerate(("split", "sample_flush", "merge", "final_flush")):
+                if not any(m[k] for m in mine):
+                    vacuous.append("no end-to-end request exercised '%s'" % what)
         if name != "replay":
             a, b = scs[len(scs) // 2]
             ctx.sample({name: [{"files": len(x["files"]), "msgs": [len(m["files"]) for m in x["msgs"]]}
@@ -189,7 +198,34 @@ def run(ctx):
     ctx.log("coverage of the real pipeline: %s" % cover)
     for k in ("split", "sample_flush", "merge", "final_flush", "long_stats_runs"):
         if cover[k] == 0:
-            raise vk.Inconclusive("vacuous run: no scenario exercised '%s'" % k)
+            vacuous.append("no scenario exercised '%s'" % k)
+    # one violation per signature: the occurrence with the shortest producer history
+    union = {}
+    for why, _, d in rejected:
+        if why in ("stats-lost", "stats-dup"):
+            union.setdefault(why, set()).update(d["expected"].get("fields", []))
+    found = {}
+    for why, nhist, d in rejected:
+        exp = d["expected"]
+        if why == "files":
+            sigs = ["C25:files:" + _files_kind(exp, d["event"] == "flush")]
+        elif why in ("stats-lost", "stats-dup"):
+            sigs = _stats_sigs("C25:stats:" + why[6:], exp, len(union[why]) > 3)
+        elif why == "e2e-stats":
+            sigs = ["C25:e2e:stats:" + f for f in sorted(exp.get("fields", []))]
+        elif why == "e2e-files":
+            sigs = ["C25:e2e:files"]
+        else:
+            sigs = ["C25:" + why]     # budget, overhead
+        for sig in sigs:
+            cur = found.setdefault(sig, {"n": 0, "best": None})
+            cur["n"] += 1
+            if cur["best"] is None or nhist < cur["best"][0]:
+                cur["best"] = (nhist, d)
+    for sig in sorted(found):
+        d = dict(found[sig]["best"][1])
+        d["occurrences"] = found[sig]["n"]
+        ctx.violation(sig, d)
     ctx.assumptions += [
         "TLC; the fake gRPC stream reads each message out during Send (as the serialising real stream does)",
         "driver's reflection over zoekt.Stats (integer kinds); Duration and FlushReason are specified as "
@@ -208,6 +244,8 @@ def run(ctx):
         exhaustive=False,
         extra={"scripts_from_tlc": total_scripts, "scripts_replayed": len(scripts), "pipeline_coverage": cover,
                "stats_fields": names, "conformance_mismatches": len(conform)})
+    if vacuous and rc == 0:
+        raise vk.Inconclusive("vacuous run: " + "; ".join(vacuous))
     if conform and rc == 0:
         c = conform[0]
         raise vk.Inconclusive(
